@@ -122,6 +122,8 @@ func absExp(op *Op) uint32 {
 	switch op.ExpKind {
 	case 0:
 		return 0
+	case 3:
+		return op.ExpArg
 	default:
 		return op.Now + op.ExpVal
 	}
@@ -670,6 +672,23 @@ func stepUpdate(d Doc, op *Op, r *Res, env Env) StepOut {
 		}
 		return unchanged(d, "body")
 	}
+	if act.Act == "set" && act.Body == nil && !d.HasBody {
+		// a callback that only returns an expiry, shown "no document": what Update then does is not
+		// specified (rosmar: key-missing error on an absent key, a fresh tombstone over a tombstone)
+		if r.Err != "" {
+			if !in(r.Err, EMissing, ECas) {
+				return fail(tags, "Update(expiry only) on %s failed with %s", d.State(), r.Err)
+			}
+			return unchanged(d, "delete")
+		}
+		if r.Commits > 0 && d.Exists {
+			return mutated(d, tombstoneOf(d), op, r, "delete", true)
+		}
+		if r.Commits > 0 {
+			return mutated(d, Doc{}, op, r, "delete", true)
+		}
+		return unchanged(d, "delete")
+	}
 	if r.Err != "" {
 		if act.Act == "delete" && !d.HasBody && in(r.Err, EMissing) {
 			return unchanged(d, "delete") // deleting what has no body: unspecified
@@ -857,7 +876,13 @@ func applyMacros(set map[string]string, macros []Macro, cas uint64, body []byte)
 		for _, p := range parts[1 : len(parts)-1] {
 			next, ok := cur[p].(map[string]any)
 			if !ok {
-				return nil, false
+				if _, there := cur[p]; there {
+					return nil, false // the parent exists and is not an object
+				}
+				// the parent does not exist: a call that succeeds must have created it (a call that
+				// refuses the path instead is handled by the caller: macroMissingParent)
+				next = map[string]any{}
+				cur[p] = next
 			}
 			cur = next
 		}
@@ -870,6 +895,32 @@ func applyMacros(set map[string]string, macros []Macro, cas uint64, body []byte)
 		out[parts[0]] = string(b)
 	}
 	return out, true
+}
+
+// macroMissingParent: does some macro of the call address a path whose parent is absent from the
+// xattr value the call stores?
+func macroMissingParent(op *Op, n Doc) bool {
+	for _, m := range op.Macros {
+		parts := strings.Split(m.Path, ".")
+		if len(parts) < 3 {
+			continue
+		}
+		var cur map[string]any
+		if json.Unmarshal([]byte(n.X[parts[0]]), &cur) != nil || cur == nil {
+			continue
+		}
+		for _, p := range parts[1 : len(parts)-1] {
+			next, ok := cur[p].(map[string]any)
+			if !ok {
+				if _, there := cur[p]; !there {
+					return true
+				}
+				break
+			}
+			cur = next
+		}
+	}
+	return false
 }
 
 func xattrSize(d Doc) int { return len(d.Body) + len(xattrBlob(d.X)) }
@@ -925,6 +976,11 @@ func stepXattrWrite(d Doc, op *Op, r *Res, env Env, body string, exp uint32, cas
 	finish := func(n Doc, fam string) StepOut {
 		if out, done := sizeCheck(n); done {
 			return out
+		}
+		if r.Err != "" && macroMissingParent(op, n) {
+			// a macro path whose parent object does not exist in the xattr as written: whether that is
+			// refused or the parent created is unspecified; a refusal must change nothing
+			return unchanged(d, "xattr")
 		}
 		if r.Err != "" {
 			return fail(t07, "%s on %s failed with %s", op.Kind, d.State(), r.Err)
